@@ -379,6 +379,9 @@ class MinMaxAggregator:
                 "inside min/max aggregate are not yet supported. See #9."
             )
             return [rule]
+        if agg.sign == Sign.Negation:
+            # the chain replacement asserts the bounds positively; a negated aggregate is left unchanged
+            return [rule]
         number_of_aggregate = 0
         assert len(agg.atom.elements) == 1
         elem = agg.atom.elements[0]
